@@ -117,6 +117,7 @@ def match_symstr(pattern, s, mode="search"):
     anch, items, end = parse(pattern)
     if not anch and mode == "search":
         raise Unsupported("unanchored search: %r" % pattern)
+    # re.match anchors at the start by itself
     cps = _selems(s)
     n = len(cps)
     m = len(items)
